@@ -31,6 +31,20 @@ CLAIMED = {
                 text="Bounded runtime contract over the selectable evaluation strategies (cached, factorised, p4, tf.function/XLA, lazy, cached likelihoods) vs plain eager evaluation; "
                      "custom einsum vs reference contraction proved per (expression, shape) for all tensor values where built.",
                 note=KERNEL_NOTE + "; TF graph/XLA compilation is exercised only by the bounded comparison", technique=TECH_B + "; " + TECH_S),
+    "C06": dict(level="other", design="3/C06",
+                text="Value formula of BaseModel.nll / Model.nll (incl. background blending and the alpha factor) proved symbolically at tensor lengths <= 3; batch partition proved for all sizes "
+                     "(AST VCs on _data_split); Gaussian constraints, FCN/CombineFCN composition proved with jets; every selectable likelihood model compared with a NumPy oracle (bounded).",
+                note=KERNEL_NOTE + "; per-event densities taken as given", technique=TECH_S + " + jets; AST VCs; " + TECH_B),
+    "C07": dict(level="proof", design="3/C07",
+                text="Every hand-written gradient / Hessian / Hessian-vector formula (BaseModel, cfit, FCN/CombineFCN with Gaussian constraints, bound-transform chain rules) is proved equal to the "
+                     "mechanical derivative of the value it is returned with, under the assumed contract of the autodiff helpers; finite-difference comparisons at the interface are bounded and separate.",
+                note=KERNEL_NOTE + "; A-AD: TensorFlow autodiff helpers return exact partial derivatives", technique="jets: symbolic differentiation of the returned value vs returned derivative (" + TECH_S + "); " + TECH_B),
+    "C08": dict(level="other", design="3/C08",
+                text="Method-resolution obligations on the fit wrappers (every call on the parameter manager / likelihood object resolves); result/state/file consistency for every minimiser name is a bounded runtime contract on a tiny model.",
+                note=KERNEL_NOTE + "; A-LIB scipy.optimize / iminuit return (x, f(x)); convergence not assumed", technique="typed resolution check from the AST; " + TECH_B),
+    "C09": dict(level="proof", design="3/C09",
+                text="All NumberError operators, cal_err, fit-fraction gradients (quotient rule), bound-transform of the error matrix proved symbolically for all inputs; Hesse errors and fit-fraction errors vs finite differences are bounded.",
+                note=KERNEL_NOTE + "; A-AD, A-LIB numpy.linalg.inv", technique=TECH_S + " + jets; " + TECH_B),
     "C10": dict(level="proof", design="3/C10",
                 text="Exact event count for all n (loop-invariant VCs generated from the AST of PhaseSpaceGenerator.generate), boost/rest-frame kernel contracts proved; "
                      "on-shell/conservation/weight<=1/nested chains/flatness are bounded runtime contracts (statistical flatness only in thorough, labelled).",
@@ -52,12 +66,23 @@ CLAIMED = {
     "C15": dict(level="proof", design="3/C15",
                 text="Barrier-factor coefficient tables and generator equal |theta_L(i sqrt z)|^2 exactly for L<=8; line-shape formula contracts proved symbolically where built; grids are bounded.",
                 note=KERNEL_NOTE, technique=TECH_G + "; " + TECH_S),
+    "C16": dict(level="other", design="3/C16",
+                text="Value-level clauses proved for all values (rp2xy/xy2rp/std_polar preserve the complex value, standard range, Bound f/inverse/derivatives with symbolic limits); "
+                     "history-level invariants explored exhaustively over bounded manager shapes and operation sequences (length <= 3 quick / 4 thorough) on the real class.",
+                note=KERNEL_NOTE + "; shapes and history length are bounded", technique=TECH_S + "; bounded exhaustive history exploration on the real VarsManager"),
+    "C17": dict(level="proof", design="3/C17",
+                text="Frame conditions including every exceptional exit proved for each listed context manager and derived computation by abstract interpretation of its AST (every call, raise and yield "
+                     "is an exception point; finite abstract domain, loop fixpoints); dynamic confirmation with injected exceptions is bounded and separate.",
+                note="callee frames listed in vt/contracts/frames_c17.py; restore calls assumed not to raise; only calls/raise/yield are exception points", technique="AST frame analysis with exceptional edges (Engine A); " + TECH_B),
     "C18": dict(level="proof", design="3/C18",
                 text="The batching loop of _data_split is proved (for all sample and batch sizes) to yield consecutive, non-empty, covering slices from VCs generated from its AST; "
                      "merge/map/mask/index algebra, LazyCall and all file round trips are bounded runtime contracts over nested structures, sizes, particle orders.",
                 note=KERNEL_NOTE + "; A-LIB numpy I/O", technique="AST verification conditions (z3 LIA); " + TECH_B),
+    "C19": dict(level="other", design="3/C19",
+                text="Bounded runtime contract over a stated grammar of decay cards: determinism across loads and hash seeds, completeness vs an independent spin-parity enumeration, alias/include equivalence, export/reload.",
+                note="bounded to the stated grammar; third-party yaml/sympy determinism assumed", technique=TECH_B),
     "C20": dict(level="other", design="3/C20",
-                text="Bounded runtime contracts: exact toy counts, weight<=bound, CDF inversion of the 1-D samplers, InterpND support, adaptive-bin partition and population bound, histogram sums; "
+                text="LinearInterp CDF inversion / antiderivative / range proved symbolically for 3 (quick) and 4 (thorough) nodes; bounded runtime contracts: exact toy counts, weight<=bound, CDF inversion of the 1-D samplers, InterpND support, adaptive-bin partition and population bound, histogram sums; "
                      "statistical statements only in the thorough tier with stated false-alarm bounds.",
                 note=KERNEL_NOTE + "; A-LIB np.histogram/percentile; empirical distributions are not provable by this technique", technique=TECH_B),
 }
